@@ -855,7 +855,12 @@ func (w *World) NextTx() ([]byte, string, *TxSpec) {
 		s, label = w.buildUpgrade(v, cp)
 	case "replay":
 		if len(w.SentTxs) > 0 {
-			return w.SentTxs[w.R.Intn(len(w.SentTxs))], "replay", nil
+			bz := w.SentTxs[w.R.Intn(len(w.SentTxs))]
+			if w.R.Chance(30) {
+				// the same transaction with bytes appended (another hash, the same signed content)
+				return append(append([]byte{}, bz...), w.R.Bytes(1 + w.R.Intn(3))...), "replay-with-trailing-bytes", nil
+			}
+			return bz, "replay", nil
 		}
 		s, label = w.buildSend(v, cp)
 	case "bytes":
